@@ -105,6 +105,60 @@ def all_fns(prog, acc=None):
     return acc
 
 
+COMPOSED_INNER = [0]
+
+
+def composable_outputs(prog):
+    """Call sites whose plain results are exactly what the program returns (single value or tuple), else None."""
+    kind, items = prog["ret"]
+    if kind not in ("single", "tuple") or not items:
+        return None
+    # (what compose does with defaulted parameters, flags and nested DAGs is C19's business: plain bodies only)
+    if prog["defaults"] or not prog.get("flagfree", True) or any(st["op"] == "dag" for st in prog["stmts"]):
+        return None
+    by_var = {}
+    for st in prog["stmts"]:
+        if st["op"] == "call" and len(st["t"]) == 1 and not prog["fns"][st["fn"]]["unpack_to"] and not st.get("call_unpack"):
+            by_var[st["t"][0]] = st["site"]
+    sites = []
+    for it in items:
+        if it not in by_var:
+            return None
+        sites.append(by_var[it])
+    if len(set(sites)) != len(sites):
+        return None
+    # compose() keeps only what the outputs need: the composed DAG equals the body only if EVERY statement feeds the outputs
+    import re
+
+    var_re = re.compile(r"\b%s_v\d+\b" % re.escape(prog["name"]))
+
+    def uses(st):
+        texts = []
+        for k in ("args",):
+            texts.extend(st.get(k) or [])
+        texts.extend((st.get("kwargs") or {}).values())
+        for k in ("active", "a", "b"):
+            if st.get(k) is not None:
+                texts.append(st[k])
+        out = set()
+        for t in texts:
+            out.update(var_re.findall(str(t)))
+        return out
+
+    needed = set(items)
+    used_params = set()
+    for st in reversed(prog["stmts"]):
+        if any(t in needed for t in st["t"]):
+            needed |= uses(st)
+            for tx in list(st.get("args") or []) + list((st.get("kwargs") or {}).values()) + [st.get("a"), st.get("b")]:
+                used_params.update(p for p in prog["params"] if tx is not None and re.search(r"\b%s\b" % re.escape(p), str(tx)))
+        else:
+            return None
+    if used_params != set(prog["params"]):
+        return None
+    return sites
+
+
 def build_twz(prog, plain, cfg, strip_flags=False, top=True):
     """tawazi environment: xn(...) per function, dag(...) per (inner) program."""
     from tawazi import Resource, and_, dag, not_, or_, xn
@@ -130,7 +184,20 @@ def build_twz(prog, plain, cfg, strip_flags=False, top=True):
         env[prog["name"]].__name__ = prog["pyname"]
         env[prog["name"]].__qualname__ = prog["qualname"]
     if not top:
-        return S.declare_dag(env[prog["name"]], dict(max_concurrency=cfg.get("inner_mc", 1)), prog["name"], salt=str(len(prog["stmts"])))
+        d_in = S.declare_dag(env[prog["name"]], dict(max_concurrency=cfg.get("inner_mc", 1)), prog["name"], salt=str(len(prog["stmts"])))
+        sites = composable_outputs(prog)
+        if sites is not None and zlib.crc32(prog["name"].encode()) % 3 == 0:
+            # the inner DAG is not the described object itself but one obtained from it through compose() (all arguments as inputs,
+            # the returned nodes as outputs): nesting it must still be the same as inlining the body
+            import warnings
+
+            lid = G.local_ids(prog)
+            outs = [d_in.get_node_by_id(lid[q]) for q in sites]
+            with warnings.catch_warnings():
+                warnings.simplefilter("ignore")
+                d_in = d_in.compose(prog.get("qualname") or prog["name"], ..., outs[0] if prog["ret"][0] == "single" else outs)
+            COMPOSED_INNER[0] += 1
+        return d_in
     d = S.declare_dag(env[prog["name"]], dict(max_concurrency=cfg["mc"] if cfg.get("mc_via") == "decorator" else 1, is_async=cfg["is_async"]),
                       prog["name"], salt=str(len(prog["stmts"])))
     conf = {}
@@ -344,6 +411,8 @@ def one_program(col, pid, rng, feats, depth, pidx, reps=3, clauses=True, flavour
             col.violation(pid, "build_of_in_fragment_program_failed", dict(exc=repr(e)[:300], source="\n".join(G.all_sources(prog))), rp)
         return
     col.counters["programs"] += 1
+    col.counters["inner_dags_obtained_through_compose"] += COMPOSED_INNER[0]
+    COMPOSED_INNER[0] = 0
     nsites = sum(1 for st in prog["stmts"] if st["op"] in ("call", "dag"))
     for rep in range(reps):
         args = gen_args(rng, prog, (pidx << 8) | rep)
